@@ -186,6 +186,35 @@ def collect_histories(ctx, vh):
     notes["window_histories"] = len(win)
     hists += win
 
+    # (3c) magnitude ladder of the position-keyed weld: pairs of triangles whose first corners are 2^(k+1) apart on
+    #      one axis (+-2^k) and whose other corners coincide; the rounding cells differ, so nothing may be merged
+    #      across the pair. Only value-free operations follow (the lattice budget of MeshOps!WeldBudget is 2^20).
+    far = []
+    ks = [20, 12] if tier == "quick" else list(range(8, 21))
+    for k in ks:
+        for axis in range(3):
+            big = (1 << k) * Q
+
+            def corner(sign, axis=axis, big=big):
+                v = [0, 0, 0]
+                v[axis] = sign * big
+                return v
+            others = [[Q if c == (axis + 1) % 3 else 0 for c in range(3)], [Q if c == (axis + 2) % 3 else 0 for c in range(3)]]
+            pos = [corner(-1)] + others + [corner(1)] + others + [corner(-1)] + [others[1], others[0]]
+            m = {"topo": "triangle", "idx": list(range(9)), "attrs": [
+                {"ar": 1, "id": 5, "data": [[(i + 1) * Q] for i in range(9)]},
+                {"ar": 3, "id": 1, "data": pos}], "mats": [], "exact": True, "bx": True, "fp": []}
+            far.append({"nslots": 4, "tag": "far", "steps": [
+                {"op": "New", "dst": 1, "src": [], "args": {"z": 0, "mesh": m}},
+                {"op": "Weld", "dst": 2, "src": [1], "args": {"z": 0, "id": 1, "p10": 1}},
+                {"op": "Unweld", "dst": 3, "src": [2], "args": {"z": 0}},
+                {"op": "Weld", "dst": 4, "src": [3], "args": {"z": 0, "id": 1, "p10": 1}},
+                {"op": "Append", "dst": 3, "src": [4, 2], "args": {"z": 0}},
+                {"op": "Weld", "dst": 3, "src": [3], "args": {"z": 0, "id": 1, "p10": 1}},
+                {"op": "Scan", "dst": 0, "src": [3], "args": {"z": 0}}]})
+    notes["far_weld_histories"] = len(far)
+    hists += far
+
     # (4) seeded large histories
     d = ctx.scratch("rnd")
     n = 60 if tier == "quick" else 800
